@@ -303,6 +303,24 @@ theorem two_writers_never_partial_sched (w1 w2 : Writer) (htgt : w2.1.target = w
     · exact Or.inr (Or.inl h)
     · exact Or.inr (Or.inr h)
 
+/-- …and in the `Interleave` form of `two_writers_never_partial` (two calls starting with fresh handles): every prefix of
+every interleaving is a schedule of the two-writer instance (`exec2_as_schedule`), so the statement is a corollary of
+`writers_never_partial` -/
+theorem two_writers_never_partial_corollary (w1 w2 : Writer) (htgt : w2.1.target = w1.1.target)
+    (h12 : w1.1.tmp ≠ w2.1.tmp) (h1 : w1.1.tmp ≠ w1.1.target) (h2 : w2.1.tmp ≠ w1.1.target) (fs0 : Fs)
+    (zs : List (Bool × Step)) (hi : Interleave (runOf w1) (runOf w2) zs) (m : Nat) :
+    OldOrNew2 (fs0.get w1.1.target) w1.1.new w2.1.new ((exec2 (zs.take m) ⟨fs0, {}, {}⟩).fs.get w1.1.target) := by
+  obtain ⟨xa, xb, ya, yb, e1, e2, hi'⟩ := interleave_take hi m
+  have hb := exec2_as_schedule hi' ⟨fs0, {}, {}⟩ xb yb
+  have hs := two_writers_never_partial_sched w1 w2 htgt h12 h1 h2 fs0 ((zs.take m).map whoIdx)
+  have hinit : initN fs0 [w1, w2] = ⟨fs0, [{}, {}], [xa ++ xb, ya ++ yb]⟩ := by
+    simp [initN, ← e1, ← e2]
+  rw [hinit] at hs
+  have hb' := congrArg CfgN.fs hb
+  simp only at hb'
+  rw [hb'] at hs
+  exact hs
+
 /-! ### non-vacuity: concrete, non-trivial instances of the hypotheses -/
 
 /-- registry of two collectors, the write split into three pieces (first flushed at once, second buffered), an
@@ -367,8 +385,8 @@ example : Independent "m.prom".toList exWs := by
     | 1, 2, _, _ => exact tmp_names_distinct _ _ _ _ _ _ _ (by decide)
     | 2, 1, _, _ => exact tmp_names_distinct _ _ _ _ _ _ _ (by decide)
 
-/-- round-robin until everybody is done: writer 2 (3 bytes `[7,7]`… shortest call) renames first, writer 0 last and wins;
-the faulted writer 1 has cleaned up; the stale file of writer 0's name and the unrelated file are as expected -/
+/-- round-robin until everybody is done: writer 2 (the shortest call) renames first, writer 0 last and wins; the faulted
+writer 1 has removed its temporary file; the stale file under writer 0's name is gone and the unrelated file untouched -/
 example : (runSched ((List.range 40).map (· % 3)) (initN exC.fs exWs)).fs
     = [("m.prom".toList, [1, 2, 3, 4, 5]), ("other".toList, [7])] := by decide
 /-- cut in the middle (12 moves): the target is still the old content and all three temporary files exist -/
